@@ -4,7 +4,12 @@ use crate::rng::Rng;
 use crate::runner::*;
 use crate::sim::{observe_all, Live};
 use crate::trace::{Event, Trace};
-use crate::sim::catch_avt;
+use crate::sim::{catch_avt, thread_cpu_ns};
+
+/// CPU-time budget of one `Vt::resize`: a fixed allowance plus a per-cell allowance about twenty
+/// times the measured cost of the (linear) re-wrap, so that only super-linear behaviour trips it.
+const RESIZE_FIXED_NS: u64 = 150_000_000;
+const RESIZE_NS_PER_CELL: u64 = 2_000;
 
 pub struct C01;
 
@@ -31,8 +36,16 @@ impl Check for C01 {
         let mut env = 0u64;
         let mut fed = 0u64;
         for (i, e) in t.events.iter().enumerate() {
+            // cost of a resize: the work it requests is re-wrapping the cells the terminal holds
+            let cells_before = live.vt.lines().len() * live.vt.size().0;
+            let is_resize = matches!(e, Event::Resize { .. });
+            let mut resize_cpu = 0u64;
             let r = catch_avt(|| {
+                let c0 = if is_resize { thread_cpu_ns() } else { 0 };
                 let rep = live.apply(e);
+                if is_resize {
+                    resize_cpu = thread_cpu_ns() - c0;
+                }
                 match e {
                     Event::Observe => {
                         observe_all(&live.vt);
@@ -63,6 +76,31 @@ impl Check for C01 {
                 }
                 rep.chars
             });
+            if is_resize && r.is_ok() {
+                let cells_after = live.vt.lines().len() * live.vt.size().0;
+                let work = (cells_before + cells_after) as u64;
+                let budget = RESIZE_FIXED_NS + RESIZE_NS_PER_CELL * work;
+                st.bump("resize_cost_judged");
+                if work >= 100_000 {
+                    st.bump("resize_cost_judged_100k_cells");
+                }
+                if resize_cpu > budget {
+                    return Verdict::Violation {
+                        rule: "resize-cost".into(),
+                        detail: format!(
+                            "event #{} ({}): the resize used {} ms of CPU time; the terminal held {} cells before and {} after, for which the budget ({} ms + {} ns per cell, ~20x the measured linear cost) is {} ms - running time is not bounded by the work requested",
+                            i,
+                            crate::trace::event_brief(e),
+                            resize_cpu / 1_000_000,
+                            cells_before,
+                            cells_after,
+                            RESIZE_FIXED_NS / 1_000_000,
+                            RESIZE_NS_PER_CELL,
+                            budget / 1_000_000
+                        ),
+                    };
+                }
+            }
             match r {
                 Ok(n) => {
                     fed += n as u64;
@@ -98,13 +136,13 @@ impl Check for C01 {
     }
     fn meta(&self) -> Meta {
         Meta {
-            rule: "chaos sessions (swarm profile of 17 token families incl. garbage / partial tokens, S5 damage, every cut policy, resizes and snapshots at any character position, every drain policy, sizes 1x1..132x50, limits None/0/1/2/5/9/10/11/20/100/10^6); a run is non-trivial if it fed >= 1 character and contained >= 1 environment event (resize, feed() loop, non-full drain, snapshot, observe); distinct = distinct final-screen digests among non-trivial runs",
-            assumptions: vec!["panics are observed through catch_unwind in a build with overflow-checks and debug-assertions on", "a hang is a run exceeding 60 s wall-clock (normal < 50 ms)", "allocation failure and mem::forget(Changes) are out of scope"],
+            rule: "no panic, no hang (60 s watchdog), and the CPU time of each Vt::resize within a budget linear in the cells the terminal holds before and after (150 ms + 2 us per cell, ~20x the measured linear cost) - running time bounded by the work requested; chaos sessions (swarm profile of 17 token families incl. garbage / partial tokens, S5 damage, every cut policy, resizes and snapshots at any character position, every drain policy, sizes 1x1..132x50, resizes to and from very wide / very tall geometries (513..70000 in one dimension, bounded so that rows kept x new width <= 4M cells), limits None/0/1/2/5/9/10/11/20/100/10^6); a run is non-trivial if it fed >= 1 character and contained >= 1 environment event (resize, feed() loop, non-full drain, snapshot, observe); distinct = distinct final-screen digests among non-trivial runs",
+            assumptions: vec!["panics are observed through catch_unwind in a build with overflow-checks and debug-assertions on", "a hang is a run exceeding 60 s wall-clock (normal < 50 ms)", "the resize cost is measured as thread CPU time (CLOCK_THREAD_CPUTIME_ID), so descheduling on a loaded machine does not count", "allocation failure of legitimately huge requests and mem::forget(Changes) are out of scope"],
             real: vec!["avt::Vt (whole library)", "avt::parser::Parser (lock-step)", "avt::util::TextCollector"],
             simulated: vec!["App (token producer)", "Pipe (cuts, damage)", "Window (resizes)", "Snapshotter", "Consumer (drain policy)", "Observer (accessors)"],
             model: vec!["hidden-state tracker (only for in-flight boosting of the scheduler)"],
-            probes: vec!["resize_while_wrap_pending", "resize_mid_sequence", "resize_while_alternate", "damaged_tokens", "drain_drop", "drain_partial", "observe_events", "snapshot_events", "one_column_end", "one_row_end", "feed_char_calls"],
-            fault_kinds: vec!["resize_events", "resize_while_wrap_pending", "resize_mid_sequence", "resize_while_alternate", "snapshot_events", "snapshot_mid_sequence", "damaged_tokens", "env_events_inside_token", "drain_partial", "drain_drop", "feed_char_calls"],
+            probes: vec!["resize_while_wrap_pending", "resize_mid_sequence", "resize_while_alternate", "damaged_tokens", "drain_drop", "drain_partial", "observe_events", "snapshot_events", "one_column_end", "one_row_end", "feed_char_calls", "giant_resizes", "resize_cost_judged", "resize_cost_judged_100k_cells"],
+            fault_kinds: vec!["giant_resizes", "resize_events", "resize_while_wrap_pending", "resize_mid_sequence", "resize_while_alternate", "snapshot_events", "snapshot_mid_sequence", "damaged_tokens", "env_events_inside_token", "drain_partial", "drain_drop", "feed_char_calls"],
         }
     }
 }
